@@ -97,6 +97,28 @@ impl<'tcx> M<'tcx> {
                     _ => Ok(V::Enum(0, vec![])),
                 }
             }
+            V::Obj("zipx", xs) => {
+                // modelled iterator zipped with an arbitrary one (kept in an allocation, its type in alloc_tys): std order, left first
+                if m != "next" {
+                    return unsup("next_back on zip");
+                }
+                let (l, r) = xs.split_at_mut(1);
+                let x = self.iter_method(&mut l[0], "next")?;
+                let V::Enum(1, mut a) = x else { return Ok(V::Enum(0, vec![])) };
+                let V::Ptr(bp) = r[0].clone() else { return unsup("zipx right operand") };
+                let Some(bt) = self.alloc_tys.get(&bp.alloc).copied() else { return unsup("zipx right operand type") };
+                let tcx = self.tcx;
+                let Some(itr) = tcx.get_diagnostic_item(rustc_span::sym::Iterator) else { return unsup("Iterator trait not found") };
+                let Some(nx) = tcx.associated_items(itr).filter_by_name_unhygienic(rustc_span::Symbol::intern("next")).next().map(|a| a.def_id) else { return unsup("Iterator::next not found") };
+                let rt = Ty::new_mut_ref(tcx, tcx.lifetimes.re_erased, bt);
+                let args = tcx.mk_args(&[bt.into()]);
+                let y = self.call_def(nx, args, vec![(V::Ptr(bp), rt)], tcx.types.unit)?;
+                match y {
+                    V::Enum(1, mut b) => Ok(V::Enum(1, vec![V::Agg(vec![a.remove(0), b.remove(0)])])),
+                    V::Enum(0, _) => Ok(V::Enum(0, vec![])),
+                    o => unsup(format!("zipped iterator returned {:?}", o)),
+                }
+            }
             o => unsup(format!("iterator method {} on {:?}", m, o)),
         }
     }
@@ -341,6 +363,17 @@ impl<'tcx> M<'tcx> {
             }
             return Ok(Some(acc));
         }
+        if n.ends_with("::for_each") && vals.len() == 2 && matches!(vals[0].0, V::SliceIter(..) | V::Obj("zip", _) | V::Obj("zipx", _)) {
+            let mut it = vals[0].0.clone();
+            let (fv, fty) = vals[1].clone();
+            loop {
+                let nx = self.iter_method(&mut it, "next")?;
+                let V::Enum(1, mut e) = nx else { break };
+                let item = e.remove(0);
+                self.call_callable(fv.clone(), fty, vec![(item, tcx.types.unit)], tcx.types.unit)?;
+            }
+            return Ok(Some(V::unit()));
+        }
         if (n.ends_with("::all") || n.ends_with("::any")) && vals.len() == 2 {
             // Iterator::all / any over a modelled iterator (by value or through &mut): short-circuiting, in iteration order
             let (itv, by_ref) = match (&vals[0].0, vals[0].1.kind()) {
@@ -348,7 +381,7 @@ impl<'tcx> M<'tcx> {
                 (v, _) => (Some(v.clone()), None),
             };
             if let Some(mut it) = itv {
-                if matches!(it, V::SliceIter(..) | V::Obj("zip", _)) {
+                if matches!(it, V::SliceIter(..) | V::Obj("zip", _) | V::Obj("zipx", _)) {
                     let is_all = n.ends_with("::all");
                     let (fv, fty) = vals[1].clone();
                     let item_ty = cargs.types().next().and_then(|t| match peel_refs(t).kind() {
@@ -394,6 +427,26 @@ impl<'tcx> M<'tcx> {
             }
             if matches!(a, V::SliceIter(..) | V::Obj(..)) && matches!(b, V::SliceIter(..) | V::Obj(..)) {
                 return Ok(Some(V::Obj("zip", vec![a, b])));
+            }
+            if matches!(a, V::SliceIter(..) | V::Obj(..)) {
+                // right operand: any IntoIterator; convert it with its own into_iter and park it in an allocation
+                let ut = vals[1].1;
+                if let Some(iit) = tcx.get_diagnostic_item(rustc_span::sym::IntoIterator) {
+                    let items = tcx.associated_items(iit);
+                    let into = items.filter_by_name_unhygienic(rustc_span::Symbol::intern("into_iter")).next().map(|x| x.def_id);
+                    let assoc = items.filter_by_name_unhygienic(rustc_span::Symbol::intern("IntoIter")).next().map(|x| x.def_id);
+                    if let (Some(into), Some(assoc)) = (into, assoc) {
+                        let args = tcx.mk_args(&[ut.into()]);
+                        let it_ty = tcx.normalize_erasing_regions(tyenv(), ty::Unnormalized::new_wip(Ty::new_projection(tcx, assoc, args)));
+                        let itv = self.call_def(into, args, vec![(b, ut)], it_ty)?;
+                        if matches!(itv, V::SliceIter(..) | V::Obj(..)) {
+                            return Ok(Some(V::Obj("zip", vec![a, itv])));
+                        }
+                        let al = self.new_alloc(itv, "zipped-iterator");
+                        self.alloc_tys.insert(al, it_ty);
+                        return Ok(Some(V::Obj("zipx", vec![a, V::Ptr(Ptr { alloc: al, path: vec![], off: 0, sl: None })])));
+                    }
+                }
             }
             return unsup(format!("zip of unmodelled iterators {:?} / {:?}", a, b));
         }
